@@ -29,7 +29,8 @@ import (
 
 type C09Case struct {
 	Snippets bool `json:"snippets,omitempty"` // lifecycle kind: VCL snippets for the recv and deliver macros are configured
-	Kind      string     `json:"kind"` // core | lint | lifecycle
+	Kind      string     `json:"kind"` // core | lint | lifecycle | tester
+	Main      string     `json:"main,omitempty"` // tester kind: main VCL (Plain / Decorated hold the test file)
 	Acls      []*ref.Acl `json:"acls,omitempty"`
 	Plain     string     `json:"plain"`
 	Decorated string     `json:"decorated"`
@@ -40,7 +41,7 @@ type C09Case struct {
 
 func init() {
 	register("C09",
-		"base programs (type-directed core programs run at statement level; the same programs wrapped in vcl_recv with injected lint errors; synthesised nine-subroutine lifecycle VCLs from the C06 plan generator) each rendered plainly and with decorations: ordinary #, // and /* */ comments between arbitrary tokens (inside return( ), around operators, between else and if, inside argument lists, after case labels), blank lines, indentation, line breaks; oracle (metamorphic): both texts parse to the same canonical tree, lint diagnostics are equal as multisets of (rule, severity, message), simulator runs give equal logs, final pooled values, flows, restarts, status and headers (minus Date/Age). non-trivial: >=1 comment at an inline position and the base program has >=1 diagnostic or executes >=1 branch; distinct by (plain, decorated)",
+		"base programs (type-directed core programs run at statement level; the same programs wrapped in vcl_recv with injected lint errors; synthesised nine-subroutine lifecycle VCLs from the C06 plan generator; kind tester: the main VCL and test file of the C10 generator, the test file decorated with ordinary comments in front of, between and behind the @scope/@suite/@skip annotation lines and around statements, both run through `falco test -json` and the reports compared without positions and timings) kind reject: switch statements with duplicate case labels or two default clauses, which the parser rejects — the decorated text must be rejected too; each rendered plainly and with decorations: ordinary #, // and /* */ comments between arbitrary tokens (inside return( ), around operators, between else and if, inside argument lists, after case labels), blank lines, indentation, line breaks; oracle (metamorphic): both texts parse to the same canonical tree, lint diagnostics are equal as multisets of (rule, severity, message), simulator runs give equal logs, final pooled values, flows, restarts, status and headers (minus Date/Age). non-trivial: >=1 comment at an inline position and the base program has >=1 diagnostic or executes >=1 branch; distinct by (plain, decorated)",
 		genC09, checkC09, 20*time.Second)
 }
 
@@ -214,12 +215,60 @@ var lintInjections = []string{
 	"if (req.http.X-E) { error 601 \"msg\"; }\n",
 	"if (req.restarts == 0 && req.http.X-R) { restart; }\n",
 	"std.collect(req.http.Cookie);\n",
+	// one trigger per further linter rule that a statement of vcl_recv can raise
+	"if (req.url ~ \"\\.(jpg|png)$\") { set req.http.X-Ext = \"1\"; }\n",
+	"if (req.url.path !~ \"\\.css$\") { set req.http.X-Ext = \"0\"; }\n",
+	"if (req.http.X-A ~ \"(a)\") { if (req.http.X-B ~ \"(b)\") { set req.http.X-I = re.group.1; } }\n",
+	"set req.http.X-I = re.group.2;\n",
+	"if (req.http.X-A == 1) { set req.http.X-I = \"n\"; }\n",
+	"if (client.ip == \"999.1.1.1\") { set req.http.X-I = \"ip\"; }\n",
+	"set var.i1 += \"a\";\n",
+	"set req.backend = no_such_backend;\n",
+	"call no_such_subroutine;\n",
+	"declare local var.c09dup STRING;\ndeclare local var.c09dup STRING;\n",
+	"declare local var.c09bad FOO;\n",
+	"if (req.http.X-G) { goto c09_lbl; }\nc09_lbl:\n",
+	"error 1000;\n",
+	"set req.http.X-I = now + 5;\n",
+	"unset var.i1;\n",
+	"add var.i1 = 1;\n",
+	"if (\"lit\") { set req.http.X-I = \"l\"; }\n",
+	"set req.http.X-I = req.http.X-A req.http.X-B;\nset req.http.X-I = client.geo.city.ascii;\n",
+	"set req.grace = 1s;\n",
 }
 
 func genC09(t *rapid.T) any {
-	kind := rapid.SampledFrom([]string{"core", "core", "lint", "lint", "lifecycle"}).Draw(t, "kind")
+	kind := rapid.SampledFrom([]string{"core", "core", "core", "core", "lint", "lint", "lint", "lint", "lifecycle", "lifecycle", "tester"}).Draw(t, "kind")
 	c := C09Case{Kind: kind}
+	if rapid.IntRange(0, 24).Draw(t, "reject") == 0 {
+		// a program the parser rejects for what it says, not for how it is spelled: duplicate case labels,
+		// two default clauses. No decoration may turn it into an accepted program.
+		c := C09Case{Kind: "reject"}
+		var b strings.Builder
+		b.WriteString("sub vcl_recv {\n  switch (req.http.H1) {\n")
+		labels := []string{"\"a\"", "\"b\"", "~ \"^a\"", "~ \"b$\"", "default"}
+		n := rapid.IntRange(2, 4).Draw(t, "ncases")
+		var used []string
+		for i := 0; i < n; i++ {
+			l := rapid.SampledFrom(labels).Draw(t, "label")
+			if i == n-1 && rapid.Bool().Draw(t, "dup") {
+				l = used[rapid.IntRange(0, len(used)-1).Draw(t, "dupof")]
+			}
+			used = append(used, l)
+			if l == "default" {
+				fmt.Fprintf(&b, "    default:\n      set req.http.X-C = \"%d\";\n      break;\n", i)
+			} else {
+				fmt.Fprintf(&b, "    case %s:\n      set req.http.X-C = \"%d\";\n      break;\n", l, i)
+			}
+		}
+		b.WriteString("  }\n}\n")
+		c.Plain = b.String()
+		c.Decorated, c.NComments, c.Slots = decorate(t, vclTokens(c.Plain))
+		return c
+	}
 	switch kind {
+	case "tester":
+		return genC09Tester(t)
 	case "core", "lint":
 		g := &coreGen{t: t}
 		g.genAcls()
@@ -344,6 +393,9 @@ func checkC09(raw json.RawMessage) iso.Result {
 	for _, s := range c.Slots {
 		col.Label("slot:" + s)
 	}
+	if c.Kind == "tester" {
+		return checkC09Tester(c, col)
+	}
 	show := func() string {
 		return fmt.Sprintf("--- plain ---\n%s\n--- decorated ---\n%s", c.Plain, c.Decorated)
 	}
@@ -365,6 +417,21 @@ func checkC09(raw json.RawMessage) iso.Result {
 			return "", err
 		}
 		return canon.VCL(v, canon.Mode{Explicit: true})
+	}
+	if c.Kind == "reject" {
+		dp, ep := dump(c.Plain)
+		dd, ed := dump(c.Decorated)
+		switch {
+		case (ep == nil) != (ed == nil):
+			col.FailKey(c09Key(c, "verdict"), "comments/layout change whether the parser accepts the program: plain %v, decorated %v\n%s", ep, ed, show())
+		case ep == nil && dp != dd:
+			col.FailKey(c09Key(c, "tree"), "comments/layout changed the syntax tree\n plain:     %s\n decorated: %s\n%s", clip(dp), clip(dd), show())
+		}
+		if ep != nil {
+			col.Label("plain-rejected")
+			col.Res.NonTrivial = c.NComments > 0
+		}
+		return col.Done()
 	}
 	dp, err := dump(c.Plain)
 	if err != nil {
